@@ -45,6 +45,7 @@ def setup(rep, tier):
     rep.minimum('R08.3', 8)
     rep.minimum('R08.5', 3)
     rep.minimum('R08.6', 2)
+    rep.minimum('R08.7', 1)
 
 
 def r08_1(rep, prog):
@@ -398,7 +399,121 @@ def r08_6(rep, prog):
                                         [sx.show(n) for n in ends], **({} if ok else {'key': 'done-rounding'}))
 
 
+# ------------------------------------------------------------------ R08.7
+def r08_7(rep, prog):
+    """fractional bit count: the straight-line computation of ec_tell_frac (linear estimate + threshold table)
+    equals the RFC 6716 definition (section 4.1.6: square the 16-bit mantissa BITRES times, collecting the
+    carry bits) for every one of the 32768 mantissa classes.  The function body is a single basic block; its
+    statements after the mantissa is formed are evaluated symbolically per class (table reads resolved from
+    the evaluated initialiser) - nothing is executed."""
+    from .. import decide
+    from ..facts import flatten
+    f = prog.fn('ec_tell_frac')
+    rep.functions.add(f.name)
+    cg = cfgm.CFG(f)
+    body = [b for b in cg.blocks if cg.blocks[b]['stmts']]
+    inst = '%s:ec_tell_frac equals the RFC definition of the fractional bit count for every mantissa class' % prog.config
+    if len(body) != 1 or any(cg.cond(b) is not None for b in body):
+        # the loop form (the RFC text itself) or another structure: nothing to compare with a table
+        loops = cg.natural_loops()
+        if loops:
+            rep.holds('R08.7', inst, f.where(), 'iterative form (a loop of squarings), no threshold table to validate')
+        else:
+            rep.unresolved('R08.7', inst + ': body is neither one straight-line block nor a loop')
+        return
+    stmts = cg.blocks[body[0]]['stmts']
+    # the mantissa: the local assigned  rng >> (l - 16);  the result: the operand subtracted in the return
+    mant = None
+    mi = None
+    for i, s_ in enumerate(stmts):
+        if s_[0] == 'assign' and sx.kind(sx.strip(s_[1])) == 'local':
+            r = sx.strip(s_[2])
+            if sx.kind(r) == 'bin' and r[1] == '>>' and sx.kind(sx.strip(r[2])) == 'field' and sx.strip(r[2])[3] == 'rng':
+                mant, mi = sx.strip(s_[1]), i
+                shift = sx.strip(r[3])
+    ret = [s_ for s_ in stmts if sx.kind(s_) == 'ret']
+    if mant is None or not ret or sx.kind(sx.strip(ret[0][1])) != 'bin' or sx.strip(ret[0][1])[1] != '-':
+        rep.unresolved('R08.7', inst + ': mantissa / result not recognised')
+        return
+    lvar = sx.strip(sx.strip(ret[0][1])[3])
+    if sx.kind(shift) != 'bin' or shift[1] != '-' or sx.int_val(shift[3]) != 16 or sx.key(sx.strip(shift[2])) != sx.key(lvar):
+        rep.unresolved('R08.7', inst + ': mantissa is not rng >> (l - 16)')
+        return
+    tables = {}
+    for name, g in prog.globals.items():
+        if name.startswith(f.name + '::') and 'init' in g:
+            tables[name.split('::')[1]] = list(flatten(g['init']))
+    bitres = None
+    for n_ in f.all_nodes():
+        if sx.kind(n_) == 'int' and 'BITRES' in sx.macros(n_):
+            bitres = n_[1]
+    if bitres is None:
+        rep.unresolved('R08.7', inst + ': BITRES not found')
+        return
+
+    def run(r0, L0):
+        env = {sx.key(mant): r0, sx.key(lvar): L0}
+
+        def res(e):
+            if sx.kind(e) == 'idx':
+                b_ = sx.strip(e[1])
+                nm = b_[1] if sx.kind(b_) in ('global', 'local') else None
+                nm = nm.split('::')[-1] if isinstance(nm, str) else None
+                if nm in tables:
+                    ix = decide.ev3(e[2], env, res)
+                    if ix is None or not (0 <= ix < len(tables[nm])):
+                        raise IndexError(nm, ix)
+                    return tables[nm][ix]
+            return None
+        for s_ in stmts[mi + 1:]:
+            if s_[0] == 'assign' and sx.kind(sx.strip(s_[1])) == 'local':
+                v = decide.ev3(s_[2], env, res)
+                if v is None:
+                    return None
+                env[sx.key(sx.strip(s_[1]))] = v & 0xffffffff if v >= 0 else v
+            elif s_[0] == 'cassign' and sx.kind(sx.strip(s_[2])) == 'local':
+                k = sx.key(sx.strip(s_[2]))
+                v = decide.ev3(s_[3], env, res)
+                if v is None or k not in env:
+                    return None
+                op = s_[1].rstrip('=')
+                env[k] = {'+': env[k] + v, '-': env[k] - v, '|': env[k] | v, '<<': env[k] << v, '>>': env[k] >> v}.get(op)
+                if env[k] is None:
+                    return None
+        return env.get(sx.key(lvar))
+
+    def ref(r0, L0):
+        r, l = r0, L0
+        for _ in range(bitres):
+            r = (r * r) >> 15
+            b_ = r >> 16
+            l = (l << 1) | b_
+            r >>= b_
+        return l
+    bad = []
+    n = 0
+    try:
+        for r0 in range(32768, 65536):
+            n += 1
+            got = run(r0, 20)
+            if got is None:
+                rep.unresolved('R08.7', inst + ': a statement could not be evaluated')
+                return
+            if got != ref(r0, 20):
+                bad.append((r0, got - (20 << bitres), ref(r0, 20) - (20 << bitres)))
+    except IndexError as ex:
+        rep.violated('R08.7', inst, f.where(), 'table index out of range: %s' % (ex.args,), key='tell-frac-table')
+        return
+    rep.count(n)
+    if bad:
+        rep.violated('R08.7', inst, f.where(), 'for mantissa %d (rng>>(l-16)) the code yields %d eighth-bits, the RFC iteration %d; %d of %d classes differ (tables %s)' % (
+            bad[0][0], bad[0][1], bad[0][2], len(bad), n, {k: v for k, v in tables.items()}), key='tell-frac-table')
+    else:
+        rep.holds('R08.7', inst, f.where(), '%d mantissa classes, BITRES=%d, table(s) %s' % (n, bitres, sorted(tables)))
+
+
 def check(rep, prog, tier):
+    r08_7(rep, prog)
     r08_5(rep, prog)
     r08_6(rep, prog)
     r08_1(rep, prog)
